@@ -6,12 +6,89 @@ ROOT = os.path.dirname(os.path.dirname(os.path.abspath(__file__)))
 ids = [json.loads(l)["id"] for l in open(os.path.join(ROOT, "properties.jsonl"))]
 
 # id -> (category, technique, level text, level note, design ref)
+PBT = "property-based testing (proptest, fixed seeds, shrinking to a JSON replay file)"
 CLAIMED = {
+ "C01": ("exploration", PBT + " against a record-level reference model; thorough tier adds a coverage-guided libFuzzer campaign",
+         "Generated preambles x Params segmentations (cuts aimed into length prefixes, pairs over >=3 records) x padding x interleaved records x 2 buffer sizes x 3 chunkings per case; every run must equal the record-level model (id, role, flags, environment by three spellings, leftover bytes, replies). Search, not proof: holds on everything explored.",
+         "Trusts the independent wire encoder and preamble model in harness/src/{wire,model}.rs and std's from_utf8_lossy/to_ascii_uppercase as the meaning of 'lossily decoded, upper-cased'.",
+         "DESIGN.md section 3, C01"),
+ "C02": ("exploration", PBT + " with an invariant-checking stateful driver (caller-action histories)",
+         "Generated stream traffic x caller schedules (feed into dest/internal buffer, parse(0), consume, compress, consume_output, advance); prefix/count/end-of-stream invariants after every action, completeness and exact replies at quiescence; payloads are pseudo-random per position.",
+         "Trusts the stream-content model; callers respect the documented preconditions only; debug assertions of the crate are compiled in.",
+         "DESIGN.md section 3, C02"),
+ "C03": ("exploration", PBT + ": metamorphic relation (chunking / policy invariance, stickiness) on mutated traffic; thorough tier adds libFuzzer targets with the same oracle inside",
+         "Random bytes, random records and structurally mutated valid traffic under 4 chunkings x 2 reading policies must give identical outcomes; every call under catch_unwind, CPU-time watchdog for non-returning calls, conversions probed on clones, repeated calls after done/fatal.",
+         "No model of malformed traffic is needed; assumes documented call preconditions; a non-returning call is reported after 30 s of CPU time in a single case.",
+         "DESIGN.md section 3, C03"),
+ "C04": ("exploration", PBT + " against the reply model E1 (semantic comparison of the decoded wire)",
+         "Reply-eliciting records at every position class (idle, abandoned preambles, between Params records, stream phase), GetValues body grammar, all unknown types, 1-byte reads, partial output consumption; exactly the expected replies in order, nothing else.",
+         "Unknown-type echo carries the record's own id (crate's documented behaviour); tolerances for empty GetValues bodies and unknown-role foreign BeginRequest are listed in DESIGN.md.",
+         "DESIGN.md section 3, C04"),
+ "C05": ("exploration", PBT + " over conversion chains (k requests, one shared buffer) with byte-exact leftover probes on clones",
+         "At every hand-off a clone is converted and its leftover compared with the suffix of the bytes fed; cut must be a record boundary; replies accounted per phase; environments and stream contents equal per-request models.",
+         "Readers that abandon a request do what Request::close does and, like a closed-loop client, get no bytes of the next request before that; readers stopping at the held end header get unrestricted look-ahead.",
+         "DESIGN.md section 3, C05"),
+ "C06": ("exploration", PBT + " plus exhaustive enumeration of buffer sizes 0..=8192",
+         "Sizing decided for 0..=8192 and sampled to 1 MiB; sufficiency at exactly buffer_size-13-delta under aimed cuts and buffer-filling reads; converse (space always offered, StuckOnInput only with a full buffer and beyond the bound).",
+         "Bound taken from the Config::buffer_size documentation; the region between documented and tight bound is informational only.",
+         "DESIGN.md section 3, C06"),
+ "C07": ("exploration", PBT + " on a deterministic async test bed (scripted transport, closed-loop peer, executor polling only woken tasks) against the connection model",
+         "1..4 requests per connection x handler scripts x reader/writer readiness scripts; handler log and decoded byte log must match the connection model (one invocation per complete preamble, handler data, stream ends, one EndRequest with the right status, reuse iff KeepConn and no I/O error).",
+         "Single-request-at-a-time client; where management replies sit relative to a request's records is not constrained; replies for records still buffered when the connection ends are owed only under C08.",
+         "DESIGN.md sections 2.1 and 3, C07"),
+ "C08": ("exploration", PBT + " with a closed-loop peer: invariant at every suspension point + decided deadlock state",
+         "The peer withholds everything after each management query until the reply is on the log; at every park of the reader the replies owed for all complete records handed out must be on the log; 'idle, unfinished, peer waiting' is a decided deadlock. Found two genuine defects (fixed in /repo, see known_findings.json).",
+         "Liveness checked as safety under a fair peer and an executor that polls exactly the woken tasks.",
+         "DESIGN.md sections 3 and 6, C08"),
+ "C09": ("exploration", PBT + " with a direct-poll harness on async_io::Request (operation sequences, readiness scripts)",
+         "poll_read / poll_fill_buf+consume / set_stream / writeable (also cancelled) / output_stream sequences; delivered bytes equal the active stream's content, EOF only at the true end and persistent, writeable gate vs. bytes handed out by the reader, lost wake-ups decided.",
+         "Compliant client (terminated streams in role order); all input available but delivered through scripted short / not-ready reads.",
+         "DESIGN.md section 3, C09"),
+ "C10": ("exploration", PBT + " with a direct-poll harness for 1..3 StreamWriters plus the request's own reply flushing",
+         "Generated poll orders, write sizes (0..70000), partial / pending / vectored transports; every accepted write is exactly one record (type, id, bytes, padding rule), per-writer order, replies intact, log decodable after every step, lost wake-ups on the output lock decided.",
+         "Each write's first byte tags (writer, call); writers are re-polled with the same buffer as AsyncWrite requires.",
+         "DESIGN.md section 3, C10"),
+ "C11": ("exploration", PBT + ": abort placed after every record (sync parsers) and aborted connections on the async test bed",
+         "Sync: one EndRequest{RequestComplete,0} in Params phase, sticky AbortRequest with retained record in stream phase, next preamble parses to its model. Async: no handler for Params-phase aborts, ConnectionAborted for the next input read, ABRT unless the handler returned its own status, connection reuse.",
+         "For aborted requests only the single EndRequest is demanded (the two stream-end records are optional).",
+         "DESIGN.md section 3, C11"),
+ "C12": ("fault_enumeration", "generated connection scripts x enumeration of every fault point (EOF at every byte offset, read error at every read call, write error and zero-length write at every write call)",
+         "Per script a fault-free run yields N bytes, R reads, W writes; every fault point is injected in a separate deterministic execution: termination within the step bound, no handler for an incomplete preamble, no clean EOF for a truncated stream, error kinds, and for propagating handlers nothing after the failed write and a well-formed record prefix.",
+         "One-shot transport errors, permanent EOF; beyond 1200 points per kind the middle is sampled evenly.",
+         "DESIGN.md section 3, C12"),
+ "C13": ("exploration", PBT + ": model-based state machine over get_token / poll / drop / cancel / unwind histories; real-thread stress with a timing-independent oracle",
+         "After every operation: live tokens <= limit, immediate completion with a free slot and empty queue, free slot and queued requests implies a woken request; drain: every request obtains a token. Threads sample interleavings.",
+         "The atomics inside async-lock / event-listener cannot be scheduled by this technique; invariants are evaluated between operations.",
+         "DESIGN.md sections 3 and 7, C13"),
+ "C14": ("exploration", PBT + ": shutdown injected before every poll of generated connections; hook-forced wait-group windows; several idle connections; real threads",
+         "No handler begins after the request, in-flight requests complete per the connection model, idle tasks are woken and stop without reading, the shutdown future is pending while any token lives and woken by the last drop, including drops forced between the liveness check and the waker registration through the cfg-guarded hook.",
+         "Hook: two add-only scheduling points behind --cfg fastcgi_server_verif. Thread interleavings of Arc/AtomicWaker are sampled.",
+         "DESIGN.md sections 3 and 7, C14"),
  "C15": ("exploration",
          "exhaustive enumeration against an independent codec (generated-input search with the finite domain fully covered)",
          "Both tiers enumerate the complete domain: all 2^31 values (write/read round-trip, byte-exact against an independently written encoder, exact consumption), all 2^32 u32 inputs of TryFrom, all 2^31 four-byte encodings incl. non-canonical ones, all one-byte inputs and every truncation. The property is finite, so it is decided for this build rather than sampled.",
          "Trusts the harness's own 20-line reference encoder/decoder and std's Read/Write for slices.",
          "DESIGN.md section 3, C15"),
+ "C16": ("exploration", PBT + " (round-trip, independent decoder, prefix monotonicity, pointer containment) plus exhaustive short strings; thorough tier adds a libFuzzer target",
+         "Round-trip of generated pair lists incl. 65535+ byte lengths; hostile byte strings; every string up to length 7 (quick) / 9 (thorough) over the boundary alphabet with every prefix; oversize lengths rejected.",
+         "Oracle = independent encoder/decoder; zero-copy observed through pointer arithmetic.",
+         "DESIGN.md section 3, C16"),
+ "C17": ("exploration", "exhaustive per-field / per-table enumeration against independently written expected byte layouts; epilogue observed on the transport log through Request::close",
+         "All (version,type) pairs, every value of each other header field, all 65536 padding computations, all roles x flag bytes, all status bytes, whole-record encoders, all 8 variable subsets x decimal-length boundaries x prefilled Vec/SmallVec targets, every ExitStatus variant; end-of-request sequence for all roles / ids / statuses via the async test bed.",
+         "Field independence is sampled (each field exhaustively with the others fixed to several patterns), not the full cross product.",
+         "DESIGN.md section 3, C17"),
+ "C18": ("exploration", "exhaustive selection table (finite: decided) + " + PBT + " over set_stream histories with arbitrary record orders",
+         "3 roles x every reachable selection x every requested selection x buffered/unbuffered; histories: delivered bytes per stream are a prefix of its content, nothing for other streams, the finally selected stream is complete (held records are not lost).",
+         "Only input-stream types are passed to set_stream (documented precondition of the comparator).",
+         "DESIGN.md section 3, C18"),
+ "C19": ("exploration", PBT + " over name triples and constructors + exhaustive table over every interned name",
+         "eq/cmp of borrowed and owned types vs. eq_ignore_ascii_case / upper-cased byte order, hash streams recorded call by call, constructor normalisation, map lookups by three spellings, header-name mapping; every interned name x 81 constructor pairs x three case patterns.",
+         "Interned list re-extracted from src/cgi/intern.rs at build time.",
+         "DESIGN.md section 3, C19"),
+ "C20": ("exploration", "exhaustive over all status codes + " + PBT + " over header lists, against an independently assembled grammar and every destination capacity",
+         "write_headers / simple_redirect / http_headers: exact bytes, exact count, and for every capacity 0..=len+1: fails iff too small, written prefix is a prefix of the expected text.",
+         "Reason phrases from http::StatusCode::canonical_reason (dependency, not under test).",
+         "DESIGN.md section 3, C20"),
 }
 
 REASON_PENDING = "check under construction in this session (see DESIGN.md section 3); will be claimed once built"
